@@ -245,6 +245,27 @@ theorem serialize_fails_only_if_str_fails (strOf : Nat → Except Err Str) (text
     cases h
     exact (unrepresentable_rendered_with_str strOf).2.1 _ _ he
 
+/-! ### histories on one handler -/
+
+/-- Whatever a long-lived handler has serialised before (records at the same level, `logger.level`
+updates in between …), the i-th line it emits mirrors the i-th record's OWN level name / no / icon and
+message, and is the formatted text of that very call. -/
+theorem history_mirrors_each_record (strOf : Nat → Except Err Str) (h : List (Str × Record)) (i : Nat)
+    (p : Str × Record) (s : Str) (hp : h[i]? = some p) (hs : (emitHistory strOf h)[i]? = some (.ok s)) :
+    (emitHistory strOf h).length = h.length ∧
+    ∃ j, s = dumps Gen.ensureAscii j ++ ['\n'] ∧ loads (dumps Gen.ensureAscii j) = some j ∧
+      j.get [K "text"] = some (.str p.1) ∧
+      Mirrors strOf j [K "record", K "message"] p.2.message ∧
+      Mirrors strOf j [K "record", K "level", K "name"] p.2.levelName ∧
+      Mirrors strOf j [K "record", K "level", K "no"] p.2.levelNo ∧
+      Mirrors strOf j [K "record", K "level", K "icon"] p.2.levelIcon := by
+  have hpure : Gen.serializeIsPure = true := rfl
+  simp only [emitHistory, hpure, if_true, List.getElem?_map, hp, Option.map_some, Option.some.injEq] at hs
+  refine ⟨by simp [emitHistory, hpure], ?_⟩
+  rw [(emit_serializes_formatted strOf p.1 p.2).1] at hs
+  obtain ⟨j, h1, h2, h3, h4, h5, h6, h7, _⟩ := record_mirrored strOf p.1 p.2 s hs
+  exact ⟨j, h1, h2, h3, h4, h5, h6, h7⟩
+
 /-! ### non-vacuity -/
 
 def exFloat : FloatTok := ⟨"1.5e-07".toList, by decide⟩
